@@ -38,3 +38,14 @@ pub(crate) fn write_data<F: Read + Write + Seek>(m: &mut MiniAllocator<F>, id: u
 pub(crate) fn resize<F: Read + Write + Seek>(m: &mut MiniAllocator<F>, id: u32, new_len: u64) -> io::Result<()> {
     resize_stream(m, id, new_len)
 }
+
+/// Replacement for `Stream::minialloc()` (Weak::upgrade): same result while the
+/// CompoundFile is alive, without the compare-exchange loop that CBMC can
+/// only unwind to the bound.  The harness keeps the Arc alive.
+pub(crate) fn stub_upgrade<F>(s: &Stream<F>) -> io::Result<Arc<RwLock<MiniAllocator<F>>>> {
+    let p = s.minialloc.as_ptr();
+    unsafe {
+        Arc::increment_strong_count(p);
+        Ok(Arc::from_raw(p))
+    }
+}
